@@ -53,6 +53,11 @@ PINNED = {
     "stroke_opacity_above_one": '<svg xmlns="http://www.w3.org/2000/svg" viewBox="0 0 20 20"><path d="M2,10 L18,10" fill="none" stroke="red" stroke-width="4" stroke-opacity="1.5" opacity="0.5"/><rect x="1" y="14" width="4" height="4" fill="blue" fill-opacity="3" opacity="0.5"/></svg>',
     "stroke_gradient_under_transform": '<svg xmlns="http://www.w3.org/2000/svg" viewBox="0 0 100 100"><defs><linearGradient id="g" gradientUnits="userSpaceOnUse" x1="0" x2="40"><stop offset="0" stop-color="red"/><stop offset="1" stop-color="blue"/></linearGradient></defs><g transform="translate(50 0)"><path d="M0,22 L40,22" fill="none" stroke="url(#g)" stroke-width="10"/></g></svg>',
     "clippath_written_inside_an_opacity_group": '<svg xmlns="http://www.w3.org/2000/svg" viewBox="0 0 20 20"><g opacity="0.5"><rect width="9" height="9" fill="red" clip-path="url(#inner)"/><clipPath id="inner"><rect width="5" height="20"/></clipPath></g></svg>',
+    "evenodd_repeated_subpath": '<svg xmlns="http://www.w3.org/2000/svg" viewBox="0 0 40 40"><path fill-rule="evenodd" fill="red" d="M0,0 L30,0 L30,30 L0,30 Z M10,10 L20,10 L20,20 L10,20 Z M10,10 L20,10 L20,20 L10,20 Z"/><path fill-rule="evenodd" fill="blue" d="M32,0 L38,0 L38,6 L32,6 Z M32,0 L38,0 L38,6 L32,6 Z M32,10 L38,10 L38,16 Z"/></svg>',
+    "opacity_group_with_only_a_stroked_line": '<svg xmlns="http://www.w3.org/2000/svg" viewBox="0 0 40 40"><g opacity="0.5"><line x1="5" y1="5" x2="30" y2="5" stroke="black" stroke-width="4"/></g></svg>',
+    "vertex_a_hair_off_the_subpath_start": '<svg xmlns="http://www.w3.org/2000/svg" viewBox="0 0 40 40"><path d="M0,0 L10,0 L10,10 L0.0000000014,0 Z"/></svg>',
+    "zero_width_gradient_stroke_on_a_filled_shape": '<svg xmlns="http://www.w3.org/2000/svg" viewBox="0 0 40 40"><defs><linearGradient id="rim"><stop offset="0" stop-color="red"/><stop offset="1" stop-color="blue"/></linearGradient></defs><rect width="20" height="20" fill="teal" stroke="url(#rim)" stroke-width="0"/><rect y="22" width="10" height="10" fill="teal" stroke="url(#rim)" stroke-width="0" transform="translate(2 2)"/></svg>',
+    "foreign_attribute_declared_on_a_stop": '<svg xmlns="http://www.w3.org/2000/svg" viewBox="0 0 40 40"><defs><linearGradient id="g"><stop xmlns:k="urn:kit" k:locked="true" offset="0" stop-color="red"/><stop offset="1" stop-color="blue"/></linearGradient></defs><rect width="20" height="20" fill="url(#g)"/></svg>',
     "clip_rule_on_the_clippath": '<svg xmlns="http://www.w3.org/2000/svg" viewBox="0 0 10 10"><clipPath id="c" clip-rule="evenodd"><path d="M0,0 H8 V8 H0 Z M2,2 H6 V6 H2 Z"/></clipPath><rect width="9" height="9" clip-path="url(#c)" fill="red"/></svg>',
     "use_clip_target_transform": '<svg xmlns="http://www.w3.org/2000/svg" xmlns:xlink="http://www.w3.org/1999/xlink" viewBox="0 0 30 30"><clipPath id="c"><rect width="10" height="10"/></clipPath><defs><rect id="t" width="20" height="20" transform="translate(5 0)"/></defs><use xlink:href="#t" clip-path="url(#c)"/></svg>',
     "two_nested_svgs_clip_ids": f'<svg {NS} viewBox="0 0 100 100"><svg x="0" y="0" width="40" height="40"><rect width="60" height="60" fill="red"/></svg><svg x="50" y="50" width="40" height="40"><rect width="60" height="60" fill="blue"/></svg></svg>',
